@@ -77,7 +77,10 @@ class ConcurrentTestSuite(unittest.TestSuite):
         """
         tests = self.make_tests(self)
         try:
-            threads = {}
+            # A list searched by identity, not a dict keyed by the sub-suite:
+            # unittest.TestSuite objects are not hashable and compare equal
+            # when they hold equal tests.
+            threads = []
             queue = Queue()
             semaphore = threading.Semaphore(1)
             for i, test in enumerate(tests):
@@ -87,14 +90,17 @@ class ConcurrentTestSuite(unittest.TestSuite):
                 reader_thread = threading.Thread(
                     target=self._run_test, args=(test, process_result, queue)
                 )
-                threads[test] = reader_thread, process_result
+                threads.append((test, reader_thread, process_result))
                 reader_thread.start()
             while threads:
                 finished_test = queue.get()
-                threads[finished_test][0].join()
-                del threads[finished_test]
+                for index, entry in enumerate(threads):
+                    if entry[0] is finished_test:
+                        break
+                del threads[index]
+                entry[1].join()
         except:
-            for thread, process_result in threads.values():
+            for test, thread, process_result in threads:
                 process_result.stop()
             raise
 
